@@ -256,6 +256,11 @@ func sbRoots() []sbRoot {
 	sbAddRoot("eval-beyond-inf", "4k3/p7/8/8/8/8/QQ6/QQQQKQQQ b - - 0 1")
 	sbAddRoot("eval-beyond-inf-w", "qqqqkqqq/qq6/8/8/8/8/P7/4K3 w - - 0 1")
 	sbAddRoot("eval-beyond-inf-mover", "4k3/p7/8/8/8/8/QQ6/QQQQKQQQ w - - 0 1")
+	// final by rule AND a single legal reply (a forced move is no reason to skip the draw test: seeded C06-G)
+	sbAddRoot("clock-100-single-reply", "8/8/8/8/8/8/2k5/K7 w - - 100 80")
+	sbAddRoot("clock-100-single-reply-in-check", "k7/8/8/8/8/8/3R1PPP/r5K1 w - - 100 60")
+	sbAddRoot("third-occurrence-single-reply", "8/8/8/8/8/8/2k5/K7 w - - 0 1", sbRepeat([]string{"a1a2", "c2c3", "a2a1", "c3c2"}, 2)...)
+	sbAddRoot("second-occurrence-single-reply", "8/8/8/8/8/8/2k5/K7 w - - 0 1", sbRepeat([]string{"a1a2", "c2c3", "a2a1", "c3c2"}, 1)...)
 	sbAddRoot("middlegame", "r1bq1rk1/pp2b1pp/n1pp1n2/3P1p2/2P1p3/2N1P2N/PP2BPPP/R1BQ1RK1 b - - 2 10")
 	sbAddRoot("endgame", "8/p2B4/PkP5/4p1pK/4Pb1p/5P2/8/8 w - - 29 68")
 	return sbFixedRoots
